@@ -461,6 +461,18 @@ func genWorld(r *simkit.RNG, sc *Scenario, k *gknobs) {
 				}
 			}
 		}
+		if xr := simkit.NewRNG(sc.Seed, "bw/twin-dirlink-text"); xr.Chance(1, 5) {
+			// one twin holds a link to one of its directories, the other a regular file of the same
+			// name whose bytes describe such a link: two different trees
+			src := &sc.Pkgs[a]
+			for _, f := range src.Files {
+				if f.Kind == "dir" && !strings.Contains(f.Path, "/") && !hasPath(tw.Files, "dt-"+f.Path) && !hasPath(src.Files, "dt-"+f.Path) {
+					src.Files = append(src.Files, PFile{Path: "dt-" + f.Path, Kind: "link", Target: f.Path})
+					tw.Files = append(tw.Files, PFile{Path: "dt-" + f.Path, Kind: "file", Body: "symlink to directory " + f.Path, Mode: 0o644})
+					break
+				}
+			}
+		}
 		if lr := simkit.NewRNG(sc.Seed, "bw/twin-link"); k.hostileTrees && lr.Chance(1, 2) {
 			// the twin delivers one file as a link to a file outside the bundle that holds the
 			// same bytes: hashed through the link the two trees are equal, but the twin must be refused
